@@ -87,11 +87,22 @@ func runC02(r *Run) {
 			{"ptr", map[string]interface{}{"v": pv.Interface()}},
 			{"iface-in-struct", struct{ V interface{} }{iv}},
 			{"slice-elem", map[string]interface{}{"l": []interface{}{v}}},
+			{"quantified-any", map[string]interface{}{"l": []interface{}{v}}},
+			{"quantified-all-typed", map[string]interface{}{"l": reflect.Append(reflect.MakeSlice(reflect.SliceOf(reflect.TypeOf(v)), 0, 1), reflect.ValueOf(v)).Interface()}},
+			{"quantified-map", map[string]interface{}{"l": map[string]interface{}{"k": v}}},
 		}
 	}
 	check := func(kind, w string, d interface{}, sel, lit, rel string, want string) {
 		for _, op := range []string{"==", "!="} {
 			e := sel + " " + op + " " + lit
+			switch w {
+			case "quantified-any":
+				e = "any l as x { x " + op + " " + lit + " }"
+			case "quantified-all-typed":
+				e = "all l as i, x { x " + op + " " + lit + " }"
+			case "quantified-map":
+				e = "any l as _, x { x " + op + " " + lit + " }"
+			}
 			c := evalCase{expr: e, d: d, tag: "bexpr"}
 			if !c.parse() {
 				r.Count("generator:unparseable")
@@ -447,6 +458,7 @@ func runC05(r *Run) {
 		{"%s == 1", "F"}, {"%s != 1", "T"}, {"1 in %s", "F"}, {"1 not in %s", "T"}, {"%s contains 1", "F"}, {"%s not contains 1", "T"},
 		{"%s is empty", "T"}, {"%s is not empty", "F"}, {"%s matches `a`", "F"}, {"%s not matches `a`", "T"},
 		{"all %s as x { x == 1 }", "T"}, {"any %s as x { x == 1 }", "F"}, {"all %s as k, v { v == 1 }", "T"}, {"any %s as _, v { v == 1 }", "F"},
+		{`%s == "05"`, "F"}, {`%s != "0x5"`, "T"}, {"%s == 5.0", "F"}, {"%s matches `^5$`", "F"}, {"5 in %s", "F"}, {`%s == "1.50"`, "F"},
 	}
 	unknowns := []struct {
 		name string
@@ -455,6 +467,7 @@ func runC05(r *Run) {
 	}{
 		{"none", false, nil}, {"int", true, 1}, {"string", true, "a"}, {"bool", true, true}, {"float", true, 1.5}, {"uint8", true, uint8(1)}, {"nil", true, nil},
 		{"list", true, []int{1, 2}}, {"emptylist", true, []int{}}, {"map", true, map[string]int{"k": 1}}, {"emptystring", true, ""},
+		{"json.Number-int", true, json.Number("5")}, {"json.Number-float", true, json.Number("1.5")}, {"json.Number-bad", true, json.Number("x")}, {"named-int", true, NInt(5)}, {"ptr-int", true, &one}, {"Dur", true, Dur(5)}, {"float32", true, float32(1.5)},
 	}
 	for _, dc := range docs {
 		for _, op := range ops {
@@ -605,10 +618,17 @@ func runC06(r *Run) {
 		{"string", map[string]interface{}{"l": "abc"}, "l", nil, false},
 		{"absent-in-map", map[string]interface{}{"o": map[string]interface{}{}}, "o.zz", []string{}, false},
 		{"same-name-as-field", map[string]interface{}{"a": []int{1, 2}, "v": 1}, "a", []string{"0", "1"}, false},
+		{"json-numbers", map[string]interface{}{"l": []json.Number{"1.0", "2"}}, "l", []string{"0", "1"}, false},
+		{"uint8-array-empty", map[string]interface{}{"l": [0]uint8{}}, "l", []string{}, false},
+		{"floats-empty", map[string]interface{}{"l": []float64{}}, "l", []string{}, false},
+		{"bools", map[string]interface{}{"l": []bool{true, false}}, "l", []string{"0", "1"}, false},
+		{"strings-empty", map[string]interface{}{"l": []string{}}, "l", []string{}, false},
+		{"named-ints", map[string]interface{}{"l": []NInt{1, 2}}, "l", []string{"0", "1"}, false},
 	}
 	// body templates over the value variable {v} and, where bound, the index/key variable {i}
 	bodies := []string{"{v} == 1", "{v} != 1", "{v}.A == 1", "{v}.A == 1 or {v}.B == a", `"/{v}/A" == 1`, "{v} is empty", "1 in {v}", "x == 9", "not {v} == 2",
-		"any {v} as w { w == 1 }", "all {v} as {v} { {v} == 1 }", "{v}.A == 1 and any l as {v} { {v} == 1 }", "{v} == 1 and {v} == 1"}
+		"any {v} as w { w == 1 }", "all {v} as {v} { {v} == 1 }", "{v}.A == 1 and any l as {v} { {v} == 1 }", "{v} == 1 and {v} == 1",
+		"{v} == http", "{v} != http", "{v} == 80.5", "{v} != -1", "{v} == 1.0", "{v} == true"}
 	for ci, cl := range colls {
 		for bi, body := range bodies {
 			for _, q := range []string{"any", "all"} {
@@ -918,6 +938,7 @@ func runC07(r *Run) {
 	c07BoundVariables(r)
 	c07Colliding(r)
 	c07WhitespaceTwins(r)
+	c07SelfJoin(r)
 	r.Rule = "paths taken from random data whose parts are expressible in at least two spellings (dotted, .digits, [\"...\"], [`...`], JSON Pointer with ~0/~1, mixed within one selector) x operator templates (match, quantified collection, inside a quantifier body) x data; predicate on the implementation: the parser yields the same Path for every spelling and Evaluate the same outcome; exact (case-sensitive, untrimmed) matching of parts against keys and field names; all spellings also compared with the model; distinct = (number of parts, spelling set, template, outcome)"
 	n := 1200
 	if r.Tier == "thorough" {
@@ -938,6 +959,8 @@ func runC07(r *Run) {
 			parts = []string{"m", k1, pick(rng, []string{k2, k3})}
 			if rng.Pct(30) {
 				parts = append(parts, "0")
+			} else if rng.Pct(30) {
+				parts = []string{"m", k1} // the map whose keys are awkward is itself the selected value / quantified collection
 			}
 			if rng.Pct(15) {
 				parts[1] = strings.ToUpper(parts[1]) // case must matter
@@ -1261,6 +1284,7 @@ func runC08(r *Run) {
 		}
 	}
 	c08TagNameAndMethods(r)
+	c08Shapes(r)
 	// a hidden field's content is never the value a selector resolves to; a renamed field only under its tag
 	d := S5{Sec: "secret", priv: "secret", Ren: "r", SecS: S5b{Name: "secret"}}
 	for _, t := range []struct{ e, tag, want string }{
@@ -1341,7 +1365,8 @@ func runC14(r *Run) {
 	bodies := []string{"any m as _, v { v.x == 1 }", "all m as _, v { v.x == 1 }", "any m as k, v { v.x == 1 and k != zz }", "all m as k, v { v.x != 1 or k == a }", "any m as k { k == b }",
 		"any m as _, v { v == 5 }", "all m as _, v { v is not empty }", "any m as _, v { any v as _, w { w == 1 } }", "not any m as _, v { v.x == 2 }", "any m as _, v { v.x == 1 } or any m as _, v { v.x == 2 }",
 		"any o.m as _, v { v.x == 1 }", "all m as k, _ { k matches `^[a-d]$` }",
-		"any m as k { k == b or zz == 1 }", "all m as k, _ { k != b and zz == 1 }", "any m as k { k == c or m.a.x == 1 }", "all m as k { k != a or zz is empty }"}
+		"any m as k { k == b or zz == 1 }", "all m as k, _ { k != b and zz == 1 }", "any m as k { k == c or m.a.x == 1 }", "all m as k { k != a or zz is empty }",
+		"any m as m, v { v.x == 1 }", "all m as m, v { v.x != 7 }", "any o.m as o, v { v.x == 1 }", "any m as k, v { any v as v, w { w == 1 } }", "all m as zz, v { v.x != 1 or zz == a }"}
 	elems := []interface{}{map[string]interface{}{"x": 1}, map[string]interface{}{"x": 2}, 5, "s", nil, map[string]interface{}{}, map[string]interface{}{"x": "1"}, []interface{}{1}, map[string]interface{}{"x": 1, "y": 2}}
 	keys := []string{"a", "b", "c", "d", "e", "f", "g", "h", "i", "j", "k", "l", "m", "n", "o", "p", "q"}
 	oddKeys := []string{"k\xfe", "k\xff", "\xff", "\ufffd", "k\xc0", "a", "", "é", "e\u0301", "z", "not", "0", "true", "-0", "NaN", "in", "k\x00", "K"}
@@ -1379,6 +1404,9 @@ func runC14(r *Run) {
 			dd := d
 			if k%4 == 0 {
 				dd = mkdoc() // a fresh map: a different hash seed
+			}
+			if k%16 == 3 {
+				poison() // unrelated failing calls in between
 			}
 			counts[evalObs(ev, dd)]++
 		}
